@@ -295,7 +295,7 @@ def triage_failures(ctx, failures, describe):
         else:
             new.append(f)
     for kid, (k, f) in seen_known.items():
-        ctx.known.append("KNOWN-FINDING: property=%s %s %s (e.g. %s)" % (ctx.prop, kid, k["what_fails"], describe(f)))
+        ctx.known.append(" ".join(("KNOWN-FINDING: property=%s %s %s (e.g. %s)" % (ctx.prop, kid, k["what_fails"], describe(f))).split()))
     for f in new[:5]:
         p = write_replay(ctx, "counterexample", {"failure": f, "what": describe(f)})
         ctx.violations.append((p, False))
